@@ -359,7 +359,7 @@ Qed.
 Lemma sim_setv n e : sim e -> sim (HSetv n e).
 Proof.
   intros IH c r c' Hc Hf fuel s s' t Hs. cbn [compile] in Hc. destruct (compile e c) as [r1 c1] eqn:E.
-  destruct (rt r1) eqn:Et; inversion Hc; subst; [|cbn in Hf; discriminate].
+  destruct (plain_assign r1) eqn:Et; inversion Hc; subst; [|cbn in Hf; discriminate].
   rewrite heval1_setv. unfold Sim.run. cbn [rs force re]. rewrite then_assign.
   apply rel_bindV; [apply (IH _ _ _ E Hf); exact Hs|].
   intros v s1 s1' t1 Hs1. cbn. apply rel_mk. apply eqU_upd. exact Hs1.
@@ -368,7 +368,7 @@ Qed.
 Lemma sim_setx n e : sim e -> sim (HSetx n e).
 Proof.
   intros IH c r c' Hc Hf fuel s s' t Hs. cbn [compile] in Hc. destruct (compile e c) as [r1 c1] eqn:E.
-  destruct (rt r1) eqn:Et; inversion Hc; subst; [|cbn in Hf; discriminate].
+  destruct (plain_assign r1) eqn:Et; inversion Hc; subst; [|cbn in Hf; discriminate].
   rewrite heval1_setx, run_named. apply rel_bindV; [apply (IH _ _ _ E Hf); exact Hs|].
   intros v s1 s1' t1 Hs1. apply rel_mk. apply eqU_upd. exact Hs1.
 Qed.
@@ -454,10 +454,10 @@ Proof.
     intros c r c' Hc Ht. rewrite compile_do in Hc. eapply cbranch_mono; eassumption.
   - destruct (IHe Hfr) as [M S]. split; [|apply sim_setv; exact S].
     intros c r c' Hc Ht. cbn [compile] in Hc. destruct (compile e c) as [r1 c1] eqn:E.
-    destruct (rt r1); inversion Hc; subst; [eapply M; eassumption | reflexivity].
+    destruct (plain_assign r1); inversion Hc; subst; [eapply M; eassumption | reflexivity].
   - destruct (IHe Hfr) as [M S]. split; [|apply sim_setx; exact S].
     intros c r c' Hc Ht. cbn [compile] in Hc. destruct (compile e c) as [r1 c1] eqn:E.
-    destruct (rt r1); inversion Hc; subst; [eapply M; eassumption | reflexivity].
+    destruct (plain_assign r1); inversion Hc; subst; [eapply M; eassumption | reflexivity].
   - rewrite frag1_all in Hfr.
     assert (HA : Forall mono es /\ Forall sim es).
     { induction H as [|x l Hx Hl IHl]; [split; constructor|]. cbn [forallb] in Hfr. apply andb_true_iff in Hfr.
